@@ -12,6 +12,7 @@ import (
 
 	"github.com/biogo/biogo/morass"
 
+	twin "verif/harness/props/twin/props"
 	"verif/harness/simrt"
 )
 
@@ -39,6 +40,14 @@ type regKey struct {
 }
 
 func (a regKey) Less(b interface{}) bool { return a.Key < b.(regKey).Key }
+
+// RecKey has a namesake in package verif/harness/props/twin/props.
+type RecKey struct {
+	Key    int
+	Serial int
+}
+
+func (a RecKey) Less(b interface{}) bool { return a.Key < b.(RecKey).Key }
 
 func init() { gob.Register(regKey{}) }
 
@@ -68,6 +77,9 @@ type MorassPlan struct {
 	DirName string `json:"dir_name,omitempty"`
 	// Reg: use the element type the application has itself registered with gob.
 	Reg bool `json:"reg,omitempty"`
+	// Twin: the history runs twice in one process, on two sorters whose
+	// element types are distinct but print alike (props.RecKey in two packages).
+	Twin bool `json:"twin,omitempty"`
 }
 
 const morassWriterSite = "morass.go:"
@@ -124,7 +136,7 @@ func sameBytes(a, b []byte) bool {
 
 // morassClient runs the plan against a real sorter, checking the reference
 // model after every operation. fail reports a violation and stops the client.
-func morassClient(sim *simrt.Sim, pl *MorassPlan, obs *morassObs) {
+func morassClient(sim *simrt.Sim, pl *MorassPlan, obs *morassObs, variant int) {
 	fail := func(site, format string, a ...interface{}) {
 		sim.Fail("oracle", site, fmt.Sprintf(format, a...))
 		simrt.Abort()
@@ -166,6 +178,12 @@ func morassClient(sim *simrt.Sim, pl *MorassPlan, obs *morassObs) {
 	if pl.Reg {
 		proto = regKey{}
 	}
+	switch variant {
+	case 1:
+		proto = RecKey{}
+	case 2:
+		proto = twin.RecKey{}
+	}
 	m, err := morass.New(proto, prefix, obs.parent, pl.Chunk, pl.Concurrent)
 	if ioErr("New", err) {
 		return
@@ -179,9 +197,11 @@ func morassClient(sim *simrt.Sim, pl *MorassPlan, obs *morassObs) {
 	serial := 0
 	stop := false
 	var (
-		dstInt intKey
-		dstRec recKey
-		dstReg regKey
+		dstInt  intKey
+		dstRec  recKey
+		dstReg  regKey
+		dstRK   RecKey
+		dstTwin twin.RecKey
 	)
 	for ci, cy := range pl.Cycles {
 		ci, cy := ci, cy
@@ -192,7 +212,13 @@ func morassClient(sim *simrt.Sim, pl *MorassPlan, obs *morassObs) {
 			for i, k := range cy.Keys {
 				serial++
 				var e morass.LessInterface
-				if pl.Reg {
+				if variant == 1 {
+					e = RecKey{Key: k, Serial: serial}
+					remaining[mvalue{k, serial}]++
+				} else if variant == 2 {
+					e = twin.RecKey{Key: k, Serial: serial}
+					remaining[mvalue{k, serial}]++
+				} else if pl.Reg {
 					e = regKey{Key: k, Serial: serial}
 					remaining[mvalue{k, serial}]++
 				} else if pl.Struct {
@@ -261,6 +287,12 @@ func morassClient(sim *simrt.Sim, pl *MorassPlan, obs *morassObs) {
 				// one destination variable serves all pulls, as in a caller's
 				// read loop: Pull must overwrite whatever it holds
 				switch {
+				case variant == 1:
+					perr = m.Pull(&dstRK)
+					key, ser = dstRK.Key, dstRK.Serial
+				case variant == 2:
+					perr = m.Pull(&dstTwin)
+					key, ser = dstTwin.Key, dstTwin.Serial
 				case pl.Reg:
 					perr = m.Pull(&dstReg)
 					key, ser = dstReg.Key, dstReg.Serial
@@ -305,7 +337,7 @@ func morassClient(sim *simrt.Sim, pl *MorassPlan, obs *morassObs) {
 						delete(remaining, mv)
 					}
 				}
-				if pl.Struct && !pl.Reg && !sameBytes(pay, payloadFor(ser, pl.Payload)) {
+				if pl.Struct && !pl.Reg && variant == 0 && !sameBytes(pay, payloadFor(ser, pl.Payload)) {
 					obs.delivered = false
 					co.delivered = false
 					if !pl.Tolerant {
@@ -325,6 +357,10 @@ func morassClient(sim *simrt.Sim, pl *MorassPlan, obs *morassObs) {
 				// exhaustion must be reported as io.EOF
 				var perr error
 				switch {
+				case variant == 1:
+					perr = m.Pull(&dstRK)
+				case variant == 2:
+					perr = m.Pull(&dstTwin)
 				case pl.Reg:
 					perr = m.Pull(&dstReg)
 				case pl.Struct:
@@ -468,7 +504,19 @@ func runMorass(t *testing.T, c *Case, o RunOpts) *Result {
 	}
 	obs := &morassObs{}
 	res := execSim(t, c, o, 6000+200*total, c.Prop != "C12", func(sim *simrt.Sim) func() {
-		sim.Client("caller", func() { morassClient(sim, &pl, obs) })
+		sim.Client("caller", func() {
+			if pl.Twin {
+				// the same history on two sorters over look-alike element types
+				morassClient(sim, &pl, obs, 1)
+				if sim.Viol == nil {
+					first := obs.scratch
+					morassClient(sim, &pl, obs, 2)
+					os.RemoveAll(first)
+				}
+				return
+			}
+			morassClient(sim, &pl, obs, 0)
+		})
 		return func() {
 			if sim.Viol != nil {
 				return
